@@ -46,14 +46,18 @@ def confirm(mdir, log):
         demo = os.path.join(SCRATCH, "demo")
         shutil.rmtree(demo, ignore_errors=True)
         os.makedirs(os.path.join(demo, "src"))
-        with open(os.path.join(demo, "Cargo.toml"), "w") as f:
-            f.write('[package]\nname = "demo"\nversion = "0.1.0"\nedition = "2021"\n\n[workspace]\n\n[dependencies]\n'
-                    'brood = { path = "%s", features = ["serde", "rayon"] }\nserde = { version = "1", features = ["derive"] }\n'
-                    'serde_assert = "0.5.0"\nserde_json = "1.0"\nrayon = "1.6.0"\n' % wt)
         shutil.copy(os.path.join(REPO, "Cargo.lock"), os.path.join(demo, "Cargo.lock"))
         shutil.copy(os.path.join(mdir, "demo.rs"), os.path.join(demo, "src", "main.rs"))
         env = {"CARGO_TARGET_DIR": tgt}
-        rc, out = sh("cargo run --offline -q", cwd=demo, env=env, timeout=1800)
+        for serde_dep in ('serde = { version = "1", features = ["derive"] }',
+                          'serde = { version = "1", default-features = false, features = ["alloc"] }'):
+            with open(os.path.join(demo, "Cargo.toml"), "w") as f:
+                f.write('[package]\nname = "demo"\nversion = "0.1.0"\nedition = "2021"\n\n[workspace]\n\n[dependencies]\n'
+                        'brood = { path = "%s", features = ["serde", "rayon"] }\n%s\n'
+                        'serde_derive = "1"\nserde_assert = "0.5.0"\nserde_json = "1.0"\nrayon = "1.6.0"\n' % (wt, serde_dep))
+            rc, out = sh("cargo run --offline -q", cwd=demo, env=env, timeout=1800)
+            if rc == 0 or "could not compile" not in out:
+                break
         res["demo_on_original"] = rc
         log.append("demo on original: rc=%d %s" % (rc, out[-300:].replace("\n", " | ")))
         rc, out = sh(["git", "apply", os.path.join(mdir, "patch.diff")], cwd=wt)
